@@ -172,6 +172,9 @@ class CaseTag(Tag):
             assert isinstance(alternative_token, TagToken)
 
             expressions = self._parse_when_expression(stream.into_inner())
+            # Text following `when` is trimmed according to the `when` tag's
+            # whitespace control, not that of the `case` tag.
+            stream.trim_carry = alternative_token.wc[-1]
             alternative_block_token = stream.current()
             alternative_block = parse_block(stream, self.end_block)
 
@@ -185,6 +188,8 @@ class CaseTag(Tag):
 
         if stream.is_tag("else"):
             alternative_token = stream.next()
+            assert isinstance(alternative_token, TagToken)
+            stream.trim_carry = alternative_token.wc[-1]
             alternative_block = parse_block(stream, self.end_block)
             default = BlockNode(alternative_token, alternative_block)
 
